@@ -20,6 +20,7 @@ def run(ctx, R, tier):
     R.rule("C11-R1", "the exposure gate is applied per call inside the batch loop and governs that call (shared with C02-R1)", floor=2)
     R.rule("C11-R2", "stop at first failure: the handler appends one wrapper and breaks; the success path appends the result; no other append", floor=3)
     R.rule("C11-R3", "the wrapper class written by the server is the class the client re-raises (shared with C07-R5)", floor=3)
+    R.rule("C11-R5", "the (name, args, kwargs) triple is written by the client and unpacked by the server in the same order", floor=1)
     R.rule("C11-R4", "flags: batched replies carry FLAGS_BATCH; the client sets FLAGS_BATCH (+ONEWAY); BatchProxy clears its calls after every submit; oneway returns nothing", floor=5)
 
     hr = ctx.fn("Pyro5.server.Daemon.handleRequest")
@@ -94,6 +95,32 @@ def run(ctx, R, tier):
     ok = bool(inits) and all(cfg.guarded(n, lambda e: edge_has_fact(e, batch_true)) for st in inits for n in cfg.nodes_for(st)) and \
         not any(lp in enclosing_loops(st, hr.node) for st in inits)
     R.check(ok, "C11-R2", "batch|fresh-result-list", "the result list is created empty right before the loop", hr.loc(), "the batch result list is not a fresh list per request")
+
+    # ---------------------------------------------------------------- R5
+    bm = ctx.fn("Pyro5.client._BatchedRemoteMethod.__call__")
+    apps = [c for c, _ in ctx.cg.calls_of(bm) if isinstance(c.func, ast.Attribute) and c.func.attr == "append" and c.args and isinstance(c.args[0], ast.Tuple)]
+    ok = len(apps) == 1 and len(apps[0].args[0].elts) == 3
+    why = "the client does not queue (name, args, kwargs) triples"
+    if ok:
+        e = apps[0].args[0].elts
+        va = bm.node.args.vararg.arg if bm.node.args.vararg else None
+        kw = bm.node.args.kwarg.arg if bm.node.args.kwarg else None
+        client_order = ["name" if "name" in unparse(e[0]) else "?", "args" if unparse(e[1]) == va else "?", "kwargs" if unparse(e[2]) == kw else "?"]
+        tg = lp.target.elts if isinstance(lp.target, ast.Tuple) else []
+        srv = ["?", "?", "?"]
+        if len(tg) == 3:
+            names = [unparse(x) for x in tg]
+            if gates and len(gates[0].args) > 1 and unparse(gates[0].args[1]) == names[0]:
+                srv[0] = "name"
+            st_args = [a for a in call.args if isinstance(a, ast.Starred)]
+            if st_args and unparse(st_args[0].value) == names[1]:
+                srv[1] = "args"
+            kws = [k for k in call.keywords if k.arg is None]
+            if kws and unparse(kws[0].value) == names[2]:
+                srv[2] = "kwargs"
+        ok = client_order == srv == ["name", "args", "kwargs"]
+        why = "client queues %s, server unpacks %s" % (client_order, srv)
+    R.check(ok, "C11-R5", "batch|triple-order", "a batched call travels as (name, args, kwargs) and is applied as method(*args, **kwargs)", bm.loc(), why)
 
     # ---------------------------------------------------------------- R3 (shared with C07-R5)
     from ..report import Rules
